@@ -240,12 +240,19 @@ def run(ctx):
         if c["kind"] == "c01":
             rec.update(dt=c["dt"], ht=c["ht"], hs=c["hs"], fl=c["fl"])
         else:
-            rec.update(days=c["days"], sod=c["sod"], frac=c["frac"], zoff=c["zoff"])
+            # the number as a whole is milli / microseconds since the epoch: for a NEGATIVE number the digits after the
+            # seconds move the instant further back (-1234567890500 ms = -1234567890.5 s).  `fwd` is the other reading
+            # (seconds negative, fraction added forwards), which the pinned tree implements and a test pins: finding
+            neg = c["s"].startswith("-")
+            total_us = (c["days"] * 86400 + c["sod"]) * 10 ** 6 + (-c["frac"] if neg else c["frac"])
+            d2, rem = divmod(total_us, 86400 * 10 ** 6)
+            s2, f2 = divmod(rem, 10 ** 6)
+            rec.update(days=d2, sod=s2, frac=f2, zoff=c["zoff"], neg=neg and c["frac"] != 0, fwd=[c["days"], c["sod"], c["frac"]])
         records.append(rec)
         ar = absfam.abs_records(i, r)
         nabs += len(ar)
         records.extend(ar)
-    tuples, _ = core.validate_traces(ctx, "T_C01", absfam.TRACE_CFG, records, tags=("REJECT", "SKIP"))
+    tuples, _ = core.validate_traces(ctx, "T_C01", absfam.TRACE_CFG, records, tags=("REJECT", "SKIP", "KNOWN"))
     sp = sum(1 for t in tuples["SKIP"] if t[2] == "prop")
     sa = sum(1 for t in tuples["SKIP"] if t[2] == "abs")
     absfam.collect(ctx, tuples, cases, results, "AbsParser", describe)
@@ -260,6 +267,6 @@ def run(ctx):
         "autodetected": sum(1 for c in cases if not c["kw"]),
         "samples": [dict(describe(c), observed=r["out"]) for c, r in list(zip(cases, results))[:: max(1, len(cases) // 6)]][:6],
     }
-    return core.finish(ctx, LEVEL, cov, assumptions=[
-        "negative epoch numbers: -n seconds plus the suffix as a positive fraction (the reading the repository's tests pin)",
+    return core.finish(ctx, LEVEL, cov, findings_desc={f["id"]: f["signature"].get("text", "") for f in core.load_findings("C01")[0]}, assumptions=[
+        "negative epoch numbers: the number as a whole is milli / microseconds since the epoch (the suffix moves the instant further back); the tree's forward reading, pinned by one of its tests, is known finding C01-negative-fraction",
         "zone offsets of IANA zones at the instant are taken from pytz (trusted); TIMEZONE='local' is exercised by running workers under several TZ environments"])
